@@ -240,6 +240,8 @@ impl<VM: VMBinding> Plan for ConcurrentImmix<VM> {
             .store(self.immix_space.end_of_gc(), Ordering::Relaxed);
 
         let pause = self.current_pause().unwrap();
+        #[cfg(mmtk_verif)]
+        crate::verif::emit(|| format!("\"ev\":\"PauseEnd\",\"kind\":\"{:?}\"", pause));
         if pause == Pause::InitialMark {
             self.set_concurrent_marking_state(true);
         }
@@ -283,6 +285,8 @@ impl<VM: VMBinding> Plan for ConcurrentImmix<VM> {
     fn notify_mutators_paused(&self, _scheduler: &GCWorkScheduler<VM>) {
         use crate::vm::ActivePlan;
         let pause = self.current_pause().unwrap();
+        #[cfg(mmtk_verif)]
+        crate::verif::emit(|| format!("\"ev\":\"PauseStart\",\"kind\":\"{:?}\"", pause));
         match pause {
             Pause::Full => {
                 self.set_concurrent_marking_state(false);
